@@ -27,7 +27,7 @@ INFO = {
     "and sha256(json.dumps(table_to_serializable)), the conflict report strings and the ordered list of forest[i].to_str() "
     "on ambiguous inputs must equal those of the first leaf.  In addition the same fingerprint is computed in fresh "
     "interpreters under PYTHONHASHSEED 0..15 (a plain native differential, reported as such).",
-    "bounds": {"quick": {"symbols": "5 ranked symbols per grammar (120 orders), 6 grammars incl. one with production priorities and one split over imported files"}, "thorough": {"symbols": "5 ranked symbols per grammar (120 orders), 10 grammars"}},
+    "bounds": {"quick": {"symbols": "5 ranked symbols per grammar (120 orders), 7 grammars incl. one with production priorities, one split over imported files and one with several nullable non-terminals (GLR heads revisited within a frontier)"}, "thorough": {"symbols": "5 ranked symbols per grammar (120 orders), 11 grammars"}},
     "outside": "orders that only arise from hash collisions inside one set's table; SipHash itself is not modelled - the "
     "quantifier 'string hash is an arbitrary injective function' is; more than 6 symbols",
     "assumptions": ["module-level `hash` shim in parglare.grammar", "STOP/EMPTY/S' keep the worker process's real hash (workers run under different PYTHONHASHSEEDs)"],
@@ -51,6 +51,8 @@ GRAMMARS = {
     "lex": ("S: S T | T; T: 'a' | 'aa';", ["aaaa", "aaa"]),
     "six": ("S: A B C; A: 'a' | EMPTY; B: 'b' | EMPTY; C: 'c' | A;", ["abc", "c", "a", ""]),
     "three-nt": ("S: A | B; A: C 'x'; B: C 'x'; C: 'c' | EMPTY;", ["cx", "x"]),
+    # several nullable non-terminals: heads already processed in a frontier are revisited when a link is added later
+    "multi-nullable": ("S: N0 N1 N1; N0: EMPTY | N1 | N1 N2 'b'; N1: N2 | N2 N2; N2: 'c' 'b' | EMPTY;", ["b", "", "cb", "cbb"], ["N0", "N1", "N2", "b", "c"]),
     # production priorities: R/R and S/R resolution walks follow sets (set order must not matter)
     "priorities": ("S: B 'x' | B 'y' | A 'x' | 't' 'y'; A: 't' {11}; B: 't';", ["tx", "ty"], ["x", "y", "t", "A", "B"]),
     # two imported files defining a same-named terminal (fqn a.SEP / b.SEP), both look-aheads of one completed item
@@ -80,7 +82,7 @@ def make_grammar(text):
 
 def cases(tier, seed):
     out = []
-    names = ["nullable-AB", "ambig-expr", "dangling", "prop-c03", "priorities", "imports"] if tier == "quick" else list(GRAMMARS)
+    names = ["nullable-AB", "ambig-expr", "dangling", "prop-c03", "priorities", "imports", "multi-nullable"] if tier == "quick" else list(GRAMMARS)
     for nm in names:
         out.append({"name": "ranks:%s" % nm, "params": {"kind": "ranks", "g": nm}, "budget_s": 3000, "hashseed": len(out)})
         out.append({"name": "seeds:%s" % nm, "params": {"kind": "seeds", "g": nm}})
